@@ -256,7 +256,15 @@ class Builder(object):
             return m.Function(m.Symbol(params[0], pys.to_ptype(env, params[1])), a)
         if o in ("FORALL", "EXISTS"):
             vs = [m.Symbol(n, pys.to_ptype(env, t)) for (n, t) in params]
-            return (m.ForAll if o == "FORALL" else m.Exists)(vs, a[0])
+            q = m.ForAll if o == "FORALL" else m.Exists
+            if self.route != "plain":
+                # the variables as any iterable; no variables at all (in any spelling) gives the body back
+                k = self.rnd.randrange(4)
+                empty = [[], (), iter([]), (v for v in vs if False)][k]
+                if q(empty, a[0]) is not a[0]:
+                    raise AssertionError("quantifier without variables is not its body")
+                vs = [vs, tuple(vs), iter(vs), (v for v in vs)][k]
+            return q(vs, a[0])
         if o == "ARRAY_VALUE":
             items = [(a[i], a[i + 1]) for i in range(1, len(a), 2)]
             if self.route != "plain":
@@ -411,6 +419,12 @@ class Machine(RuleBasedStateMachine):
                 return None
             try:
                 obj = Builder(env, rnd, route).build(bp)
+            except AssertionError as ex:
+                if "quantifier without variables" in str(ex):
+                    self.fail("empty-binder", {"bp": bp, "route": route}, "a quantifier over an empty iterable of variables is not its body (%s)" % show(bp, 200))
+                    return None
+                self.run.discard("rejected-by-constructor")
+                return None
             except Exception as ex:
                 self.run.discard("rejected-by-constructor")
                 return None
